@@ -362,6 +362,35 @@ func main() {
 			}
 		}
 	}
+	// large stores: more entries than any read-ahead window of the store's iterator (badger prefetches 100
+	// items): a short stream in front of a 300-entry stream, a 150-entry stream with one gap, both together
+	{
+		var big []stored
+		for q := uint64(0); q < 300; q++ {
+			big = append(big, stored{id{255, 0, 4, q}, 0})
+		}
+		var short []stored
+		for q := uint64(0); q < 5; q++ {
+			short = append(short, stored{id{255, 0, 2, q}, 0})
+		}
+		var holed []stored
+		for q := uint64(0); q < 150; q++ {
+			if q != 120 {
+				holed = append(holed, stored{id{10, 0, 2, q}, 0})
+			}
+		}
+		extra := []id{{255, 0, 2, 0}, {255, 0, 4, 0}, {10, 0, 2, 0}}
+		for _, t := range extra {
+			found := false
+			for _, x := range triples {
+				found = found || (x.Chain == t.Chain && x.Addr == t.Addr && x.Target == t.Target)
+			}
+			if !found {
+				triples = append(triples, t)
+			}
+		}
+		all = append(all, append(append([]stored{}, short...), big...), holed, append(append(append([]stored{}, short...), big...), holed...))
+	}
 	pool := make(chan *world, 16)
 	var once sync.Once
 	_ = once
